@@ -231,3 +231,7 @@ def run(ctx, chk):
     chk.floor("SM-SIGN", "scalar parameters of the multiplication siblings", c["sign"], 30)
     chk.floor("ALIAS-RW", "output/input pairs of single points", c["palias"], 50)
     chk.floor("OUT-RBW", "output points of functions that also take an input point", c["rbw"], 50)
+    if chk.tier == "thorough":
+        # the other field sizes select other curve families (Edwards-birational Curve25519 forms at 255 bits, BLS12 at 381)
+        for cfg in ("P255", "P381"):
+            analyse(ctx, ctx.program(cfg), chk)
